@@ -45,6 +45,7 @@ def geom_cases(draw):
     g["spell"] = {key: draw(st.sampled_from(["int", "tuple", "list"])) for key in "ksdp"}
     g["pad_value"] = draw(st.integers(-5, 5))
     g["dtype"] = draw(st.sampled_from(["float64", "float32"]))
+    g["layout"] = draw(st.sampled_from(["C", "C", "F", "strided", "neg_strided"]))
     n = N * C * g["H"] * g["W"]
     g["x"] = draw(hnp.arrays(np.int8, (n,), elements=st.integers(-9, 9), fill=st.nothing())).tolist()
     g["y"] = draw(hnp.arrays(np.int8, (48,), elements=st.integers(-9, 9), fill=st.nothing())).tolist()
@@ -85,7 +86,10 @@ def _call(name, fn, *a, **kw):
 def check_geom(g, rec):
     dt = np.dtype(g.get("dtype", "float64"))
     N, C, H, W = g["N"], g["C"], g["H"], g["W"]
-    x = np.asarray(g["x"], dtype=dt).reshape(N, C, H, W)
+    from ..ops import _layout
+    x = _layout(np.asarray(g["x"], dtype=dt).reshape(N, C, H, W), g.get("layout", "C"))
+    if g.get("layout", "C") != "C":
+        rec.tag("noncontiguous_input")
     k, s, d, p = g["k"], g["s"], g["d"], g["p"]
     K, S, D, P = _sp(g, "k"), _sp(g, "s"), _sp(g, "d"), _sp(g, "p")
     pv = g.get("pad_value", 0)
@@ -123,13 +127,13 @@ def check_geom(g, rec):
         raise Violation("value", f"im2col[2-D layout]: rows are not rearrangements of the unfold rows; geometry={_gs(g)}")
 
     # ---- col2im family ----------------------------------------------------------------------
-    y3 = gen.cyc(g["y"], (N, rows, L), dt)
+    y3 = _layout(gen.cyc(g["y"], (N, rows, L), dt), g.get("layout", "C"))
     fold_want = R.fold_ref(y3, (H, W), k, d, s, p, C)
     for shape_arg in ((N, C, H, W),):
         for name, fn in (("col2im", ct.col2im), ("col2im_v2", ct.col2im_v2), ("col2im_fast", ct.col2im_fast)):
             o = _call(name, fn, y3, shape_arg, K, D, S, P)
             _eq(name + "[fold-layout]", o, fold_want, g)
-    y2 = gen.cyc(g["y"][::-1], (rows, N * L), dt)
+    y2 = _layout(gen.cyc(g["y"][::-1], (rows, N * L), dt), g.get("layout", "C"))
     c2 = {}
     for name, fn in (("col2im", ct.col2im), ("col2im_v2", ct.col2im_v2), ("col2im_fast", ct.col2im_fast)):
         c2[name] = np.asarray(_call(name, fn, y2, (N, C, H, W), K, D, S, P))
@@ -172,7 +176,7 @@ def check_geom(g, rec):
     wref = R.windows2d_ref(x, k, s, p, d, pv)
     w = _call("extract_windows", ct.extract_windows, x, K, S, P, D, pv)
     _eq("extract_windows", w, wref, g)
-    yw = gen.cyc(g["y"], wref.shape, dt)
+    yw = _layout(gen.cyc(g["y"], wref.shape, dt), g.get("layout", "C"))
     pl = _call("place_windows", ct.place_windows, yw, (N, C, H, W), K, S, P, D)
     _eq("place_windows", pl, R.place2d_ref(yw, (N, C, H, W), k, s, p, d), g)
 
